@@ -3,6 +3,7 @@ CONSTANTS
  Family = "carry"
  MaxMid = 11
  MaxTiny = 0
+ CarryTail = 1
  CarryLens = {}
 INIT Init
 NEXT Next
